@@ -408,6 +408,14 @@ func (y *yielder) release(i int, disconnecting bool) string {
 	return pk.site
 }
 
+// disarm stops any further parking.
+func (y *yielder) disarm() {
+	y.mu.Lock()
+	y.off = true
+	y.armed = map[string]bool{}
+	y.mu.Unlock()
+}
+
 // shutdown disarms everything and releases every parked goroutine.
 func (y *yielder) shutdown(disconnecting bool) {
 	y.mu.Lock()
